@@ -52,6 +52,68 @@ fn f2_of(scs: &Scs, keep: [usize; 2]) -> Result<f64, String> {
     m.into_normalized().f2().map_err(|e| e.to_string())
 }
 
+/// `hist.scs shape bits ops` — a call history on one spectrum object (see `handleHist` in the Lean driver)
+pub fn eval_hist(a: &[&str]) -> Option<String> {
+    let shape = parse_nats(a[0]);
+    let mut s = Scs::new(parse_bits(a[1]), shape.clone()).ok()?;
+    let render = |x: &Scs| format!("{}|{}", nats(x.shape()), bits(x.inner().as_slice()));
+    let unflat = |shape: &[usize], mut f: usize| -> Vec<usize> { let mut idx = vec![0; shape.len()]; for (k, n) in shape.iter().enumerate().rev() { idx[k] = f % n; f /= n; } idx };
+    let mut out: Vec<String> = Vec::new();
+    for op in a[2].split(';') {
+        let f: Vec<&str> = op.split(':').collect();
+        let tok = match f[0] {
+            "sum" => format!("{:016x}", s.sum().to_bits()),
+            "stat" => calc(f[1], &s),
+            "set" => { let idx = unflat(s.shape(), f[1].parse().ok()?); s[idx] = f64::from_bits(u64::from_str_radix(f[2], 16).ok()?); "-".into() }
+            "setm" => { let i: usize = f[1].parse().ok()?; s.inner_mut().as_mut_slice()[i] = f64::from_bits(u64::from_str_radix(f[2], 16).ok()?); "-".into() }
+            "norm" => { s.normalize(); "-".into() }
+            "clone" => { s = s.clone(); "-".into() }
+            "fold" => render(&s.fold().into_spectrum(f64::from_bits(u64::from_str_radix(f[1], 16).ok()?))),
+            "refold" => { s = s.fold().into_spectrum(0.0); "-".into() }
+            "marg" | "remarg" => match s.marginalize(&parse_nats(f[1]).into_iter().map(Axis).collect::<Vec<_>>()) {
+                Ok(m) => if f[0] == "remarg" { s = m; "-".into() } else { render(&m) }, Err(_) => "ERR".into() },
+            "proj" | "reproj" => match s.project(parse_nats(f[1])) {
+                Ok(m) => if f[0] == "reproj" { s = m; "-".into() } else { render(&m) }, Err(_) => "ERR".into() },
+            _ => return None,
+        };
+        out.push(tok);
+    }
+    Some(out.join(";"))
+}
+
+/// random call histories on one spectrum object: queries interleaved with in-place edits, normalisation, clones and
+/// replacements of the object by its own fold / marginal / projection
+pub fn gen_hist(rng: &mut Rng, n: usize, dmax: usize, out: &mut Vec<String>) {
+    for i in 0..n {
+        let d = 1 + i % dmax;
+        let mut shape = shapes::random_shape(rng, d, d, 2, if d <= 2 { 8 } else { 4 }, 200);
+        if i % 9 == 0 && d == 2 { shape = vec![3, 3]; }
+        let len: usize = shape.iter().product();
+        let data = counts(rng, len, 1);
+        let mut cur = shape.clone();
+        let mut ops: Vec<String> = Vec::new();
+        let nops = 4 + rng.below(9) as usize;
+        for _ in 0..nops {
+            let curlen: usize = cur.iter().product();
+            let ks = applicable(cur.len(), &cur);
+            let k = *rng.pick(&ks);
+            match rng.below(14) {
+                0 | 1 => ops.push("sum".into()),
+                2 | 3 | 4 => ops.push(format!("stat:{k}")),
+                5 | 6 => { let rc = rng.below(curlen as u64) as usize; let cell = *rng.pick(&[0usize, curlen - 1, rc]); ops.push(format!("{}:{cell}:{:016x}", if rng.chance(2, 3) { "set" } else { "setm" }, (rng.range(0, 5000) as f64).to_bits())); }
+                7 => ops.push("clone".into()),
+                8 => ops.push(format!("fold:{:016x}", [0.0f64, -1.0, f64::NAN][rng.below(3) as usize].to_bits())),
+                9 => if cur.len() > 1 { let ax = rng.below(cur.len() as u64) as usize; if rng.chance(1, 3) { ops.push(format!("remarg:{ax}")); cur.remove(ax); } else { ops.push(format!("marg:{ax}")); } } else { ops.push("sum".into()); },
+                10 => { let t: Vec<usize> = cur.iter().map(|v| rng.range(1, *v as u64) as usize).collect(); if rng.chance(1, 3) { ops.push(format!("reproj:{}", nats(&t))); cur = t; } else { ops.push(format!("proj:{}", nats(&t))); } }
+                11 => ops.push("refold".into()),
+                12 => if rng.chance(1, 3) { ops.push("norm".into()); } else { ops.push(format!("stat:{k}")); },
+                _ => { ops.push("sum".into()); ops.push(format!("set:0:{:016x}", (rng.range(1, 900) as f64).to_bits())); ops.push(format!("stat:{k}")); }
+            }
+        }
+        out.push(format!("hist.scs\t{}\t{}\t{}", nats(&shape), bits(&data), ops.join(";")));
+    }
+}
+
 pub fn eval(ctx: &Ctx, op: &str, a: &[&str]) -> Option<String> {
     match op {
         // st.mem kinds shape bits
@@ -160,10 +222,15 @@ pub fn gen_c06(ctx: &Ctx, rng: &mut Rng, out: &mut Vec<String>) {
     // (a) estimator level: 1-D count spectra, n from 3 to several hundred (binomials leave the factorial table at n = 171)
     let mut ns: Vec<usize> = vec![3, 4, 5, 6, 7, 10, 25, 63, 64, 100, 169, 170, 171, 172, 200, 400];
     for _ in 0..(if t { 400 } else { 40 }) { ns.push(rng.log_range(3, if t { 900 } else { 500 }) as usize); }
-    for n in ns {
+    // … and every n from 3 to 260 once (thorough: to 700): sizes on and around powers of two, table ends, series cut-offs
+    let listed = ns.len();
+    for n in 3..=(if t { 700usize } else { 260 }) { if !ns.contains(&n) { ns.push(n); } }
+    for (j, n) in ns.into_iter().enumerate() {
         let zp = if rng.chance(1, 3) { 6 } else { 1 };
         let data = counts(rng, n + 1, zp);
-        out.push(format!("st.calc\tpi,theta,d-tajima,d-fu-li,s,sum\t{}\t{}", n + 1, bits(&data)));
+        // the two D statistics are costly in exact arithmetic: in the sweep every fifth size carries them
+        let kinds = if j < listed || n % 5 == 0 || n <= 40 { "pi,theta,d-tajima,d-fu-li,s,sum" } else { "pi,theta,s,sum" };
+        out.push(format!("st.calc\t{kinds}\t{}\t{}", n + 1, bits(&data)));
     }
     // (b) all 14 statistics on spectra of every dimensionality, unequal axis lengths; wrong dimensionality gives the error
     for i in 0..(if t { 1500 } else { 160 }) {
@@ -264,4 +331,5 @@ pub fn gen_c14(ctx: &Ctx, rng: &mut Rng, out: &mut Vec<String>) {
         if d == 3 { out.push(format!("st.rel\tf3f2\tf3\t{sh}\t{bs}\t-")); }
         if d == 4 { out.push(format!("st.rel\tf4f2\tf4\t{sh}\t{bs}\t-")); }
     }
+    gen_hist(rng, if t { 1500 } else { 150 }, 4, out);
 }
